@@ -96,6 +96,17 @@ CHECKS = {
         "The canonical file is produced by the crate itself (one call through the sample front-end); C01/C02 cover its correctness.",
         "DESIGN.md section 4 C08",
     ),
+    "C09": (
+        "proptest over options x seek-table policy x padding fit x start offset, oracle = independent parser over a recording writer",
+        "exploration",
+        "Files are written through a recording writer (optionally after a junk prefix); the independent strict validator then "
+        "confirms STREAMINFO total/channels/rate/depth/block size/frame-size extrema/MD5, every defined seek point (sample, offset, "
+        "length of a real frame; ascending; placeholders last), that finalize's header rewrite stays inside the metadata region and "
+        "does not change the output length, and that generate_seektable on the finished file reproduces the defined points. Padding "
+        "sizes sweep -3..+2 bytes around the exact seek-table fit; one run writes 932 068 frames with one point per frame.",
+        "Presence of a seek table is not required (the statement does not), only truthfulness of what is written.",
+        "DESIGN.md section 4 C09",
+    ),
 }
 
 NOT_YET = {}
